@@ -54,7 +54,7 @@ def prepare():
 def budgets(tier):
     if tier == 'quick':
         return dict(shards=16, examples=6)
-    return dict(shards=16, examples=300, deadline_s=3000)
+    return dict(shards=16, examples=900, deadline_s=3000)
 
 
 CURVES = {-7: 'p256', -35: 'p384'}
